@@ -17,7 +17,7 @@ def probe(case):
                        stdout=subprocess.PIPE, stderr=subprocess.PIPE, timeout=120)
     for line in p.stdout.decode().split('\n'):
         if line.startswith('RESULT '):
-            return json.loads(line[7:])
+            return json.JSONDecoder().raw_decode(line[7:])[0]
     raise tlc.MachineryError('config probe produced no result: %s %s' % (p.stdout[-300:], p.stderr[-600:]))
 
 
